@@ -35,7 +35,7 @@
    see docs/C03.md. *)
 From Coq Require Import List ZArith Bool Arith.
 From SC Require Import Base.Res Base.PyList Inst.Heap Inst.ClassTable Inst.Model Inst.TypeProofs Inst.TypeCopy
-  Inst.OwnProofs Inst.OwnProofs2.
+  Inst.OwnProofs Inst.OwnProofs2 Inst.OwnProofs3.
 Import ListNotations.
 Open Scope nat_scope.
 
@@ -361,31 +361,52 @@ Theorem C03_with_inplace_preserves_owned :
     Inv ct (heap (snd (step ct roots (OpHelper x (HWith a) hh) s))).
 Proof. exact step_with_inplace_Inv. Qed.
 
+(* the in-place element helper with_<item>(x, _index=i, _insert=b, _inplace=True) on a leaf
+   list attribute: ANY item and index (no freshness condition: the inserter checks the item
+   against a scalar annotation before it writes, so a reference is never inserted); the
+   attribute holds a list (then Owned gives only_view for the inserter write) or holds
+   nothing and has no class-level default (a fresh list is created, filled and stored) *)
+Theorem C03_with_item_inplace_preserves_owned :
+  forall ct, flat_table ct -> no_inval_table ct -> forall roots x a hh s,
+    h_inplace hh = true -> h_kw hh = None -> Inv ct (heap s) ->
+    (forall l, nth x roots VNone = VRef l -> recv_leaf ct l a (heap s) /\ dflt_missing ct l a (heap s)) ->
+    Inv ct (heap (snd (step ct roots (OpHelper x (HWithItem a) hh) s))).
+Proof. exact step_with_item_inplace_Inv. Qed.
+
 (* the combined statement, with the operations covered as a computable predicate
-   (owned_op_b: assignment, with_<a>(v, _inplace=True) on leaf list attributes with a
-   fresh argument; the caller building a container of scalars).  PARTIAL: the full
-   statement quantifies over every operation and every flat table. *)
+   (owned_op3_b: assignment and with_<a>(v, _inplace=True) on leaf list attributes with a
+   fresh argument; with_<item>(.., _inplace=True) on leaf list attributes; the caller
+   building a container of scalars).  PARTIAL: the full statement quantifies over every
+   operation and every flat table. *)
 Theorem C03_step_preserves_owned_partial :
   forall ct roots o s,
-    flat_table ct -> no_inval_b ct = true -> owned_op_b ct (heap s) roots o = true ->
+    flat_table ct -> no_inval_b ct = true -> owned_op3_b ct (heap s) roots o = true ->
     TypeInv ct s -> Owned ct (heap s) ->
     TypeInv ct (snd (step ct roots o s)) /\ Owned ct (heap (snd (step ct roots o s))).
-Proof. exact step_preserves_owned_partial. Qed.
+Proof. exact step_preserves_owned_partial3. Qed.
 
 (* non-vacuity: the guards hold on a concrete state, for a conforming and for an
-   ill-typed fresh list (the latter is normalised element by element and rejected) *)
+   ill-typed fresh list (the latter is normalised element by element and rejected),
+   and for in-place element insertion of a conforming / an ill-typed item *)
 Example C03_owned_guards_hold :
   let h := exH ++ [OList [VInt 5%Z]; OList [VStr 5%Z]] in
   no_inval_b exCT = true /\ owned_b exCT h = true /\ ti_b exCT h = true /\
-  owned_op_b exCT h [VRef 0] (OpSetAttr 0 50 (VRef 2)) = true /\
-  owned_op_b exCT h [VRef 0] (OpSetAttr 0 50 (VRef 3)) = true /\
-  owned_op_b exCT h [VRef 0] (OpHelper 0 (HWith 50) (exArgs [VRef 2] true)) = true /\
+  owned_op3_b exCT h [VRef 0] (OpSetAttr 0 50 (VRef 2)) = true /\
+  owned_op3_b exCT h [VRef 0] (OpSetAttr 0 50 (VRef 3)) = true /\
+  owned_op3_b exCT h [VRef 0] (OpHelper 0 (HWith 50) (exArgs [VRef 2] true)) = true /\
+  owned_op3_b exCT h [VRef 0] (OpHelper 0 (HWithItem 50) (exArgs [VInt 7%Z] true)) = true /\
+  owned_op3_b exCT h [VRef 0] (OpHelper 0 (HWithItem 60) (exArgs [VRef 3] true)) = true /\
   (let r := step exCT [VRef 0] (OpSetAttr 0 50 (VRef 2)) (mkst h 0 None) in
    fst r = Ok VNone /\ owned_b exCT (heap (snd r)) = true /\ ti_b exCT (heap (snd r)) = true) /\
   (let r := step exCT [VRef 0] (OpSetAttr 0 50 (VRef 3)) (mkst h 0 None) in
    fst r = Err ValueErr /\ owned_b exCT (heap (snd r)) = true /\ ti_b exCT (heap (snd r)) = true) /\
+  (let r := step exCT [VRef 0] (OpHelper 0 (HWithItem 50) (exArgs [VInt 7%Z] true)) (mkst h 0 None) in
+   fst r = Ok (VRef 0) /\ nth_error (heap (snd r)) 1 = Some (OList [VInt 1%Z; VInt 7%Z]) /\
+   owned_b exCT (heap (snd r)) = true /\ ti_b exCT (heap (snd r)) = true) /\
+  (let r := step exCT [VRef 0] (OpHelper 0 (HWithItem 60) (exArgs [VStr 7%Z] true)) (mkst h 0 None) in
+   fst r = Ok (VRef 0) /\ owned_b exCT (heap (snd r)) = true /\ ti_b exCT (heap (snd r)) = true) /\
   (* the aliasing assignment of the counterexample is NOT covered: the argument is referenced *)
-  owned_op_b exCT [OInst 1 [(1, VInt 3%Z); (50, VRef 1)]; OList []] [VRef 0] (OpSetAttr 0 60 (VRef 1)) = false.
+  owned_op3_b exCT [OInst 1 [(1, VInt 3%Z); (50, VRef 1)]; OList []] [VRef 0] (OpSetAttr 0 60 (VRef 1)) = false.
 Proof. vm_compute. repeat split. Qed.
 
 Print Assumptions C03_checked_before_stored.
@@ -424,5 +445,6 @@ Print Assumptions C03_owned_delete.
 Print Assumptions C03_mutate_value_quiet.
 Print Assumptions C03_setattr_preserves_owned.
 Print Assumptions C03_with_inplace_preserves_owned.
+Print Assumptions C03_with_item_inplace_preserves_owned.
 Print Assumptions C03_step_preserves_owned_partial.
 Print Assumptions C03_owned_guards_hold.
